@@ -98,8 +98,87 @@ def _writes(f, name):
     return out
 
 
+def _desig(f, n):
+    """designator of an lvalue that is a local or a member path of one
+    (`offset`, `todo.offset`, `st->length`); None for anything else"""
+    n = cu.strip_casts(f, n)
+    if n is None:
+        return None
+    if n['k'] == 'ref':
+        return n['name']
+    if n['k'] == 'member':
+        b = _desig(f, f.kid(n, 0))
+        return None if b is None else '%s%s%s' % (b, '->' if n.get('arrow') else '.', n['fld'])
+    return None
+
+
+def _written(f, n):
+    """designator written by node n (assignment, compound assignment, ++/--), else None"""
+    if n['k'] == 'bin' and n['op'].endswith('=') and n['op'] not in ('==', '!=', '<=', '>='):
+        return _desig(f, f.kid(n, 0))
+    if n['k'] == 'un' and n['op'] in ('++', '--', 'post++', 'post--'):
+        return _desig(f, f.kid(n, 0))
+    return None
+
+
+def _defs(f):
+    """[(designator, defining node, defining expression)] in source order: initialised
+    declarations (a brace-initialised record defines each of its fields) and plain
+    assignments"""
+    out = []
+    for n in f.all_nodes():
+        if n['k'] == 'decl' and n.get('c'):
+            e = f.kid(n, 0)
+            es = cu.strip_casts(f, e)
+            if es is not None and es['k'] == 'init':
+                rec = f.tu.records.get(n.get('rec') or '')
+                if rec is not None:
+                    for fld, x in zip(rec['fields'], f.kids(es)):
+                        out.append(('%s.%s' % (n['name'], fld['name']), n, x))
+                continue
+            out.append((n['name'], n, e))
+        elif n['k'] == 'bin' and n['op'] == '=':
+            d = _desig(f, f.kid(n, 0))
+            if d is not None:
+                out.append((d, n, f.kid(n, 1)))
+    out.sort(key=lambda x: (x[1].get('l', 0), x[1]['i']))
+    return out
+
+
+def _cmp_keys(f, c, pol):
+    """a branch condition and its outcome as order-independent facts:
+    `a < b`, `b > a`, `!(a >= b)`, `!(b <= a)` are all (('lt', a, b), True); equalities
+    are (('eq', {a, b}), bool); a bare value v is `v != 0`.  Returned for the plain
+    rendering and for the one that looks through locals naming a sub-expression."""
+    out = []
+    c = cu.strip_casts(f, c)
+    if c is None:
+        return out
+    for cn in (canon, rcanon):
+        if c['k'] == 'bin' and c['op'] in ('<', '<=', '>', '>='):
+            l, r = cn(f, f.kid(c, 0)), cn(f, f.kid(c, 1))
+            if c['op'] == '<':
+                out.append((('lt', l, r), pol))
+            elif c['op'] == '>=':
+                out.append((('lt', l, r), not pol))
+            elif c['op'] == '>':
+                out.append((('lt', r, l), pol))
+            else:
+                out.append((('lt', r, l), not pol))
+        elif c['k'] == 'bin' and c['op'] in ('==', '!='):
+            l, r = cn(f, f.kid(c, 0)), cn(f, f.kid(c, 1))
+            out.append((('eq',) + tuple(sorted([l, r])), pol if c['op'] == '==' else not pol))
+        elif c['k'] in ('ref', 'member'):
+            out.append((('eq',) + tuple(sorted([cn(f, c), '0'])), not pol))
+    return out
+
+
 class Walker(object):
-    """roles of one range walker"""
+    """roles of one range walker: the block variable B, the position cursor X, the
+    window offset D = X - B->base, the remaining-length cursor N, the window length
+    L = min(N, B->size - D), the block data pointer P = yr_fetch_block_data(B) and the
+    "a block of the range was seen" flag.  Cursors may be locals or members of a local
+    record; D, L and P may be initialised declarations or assigned once."""
 
     def __init__(self, f):
         self.f = f
@@ -108,41 +187,40 @@ class Walker(object):
         for p in f.params:
             if p.get('type', '').replace(' ', '') == 'YR_MEMORY_BLOCK*':
                 blocks.append(p['name'])
-        for d in _decls(f):
-            if not d.get('c'):
-                continue
-            e = cu.strip_casts(f, f.kid(d, 0))
-            if e is None or e['k'] != 'bin' or e['op'] != '-':
+        defs = _defs(f)
+        self.defs = defs
+        for name, node, e0 in defs:
+            e = cu.strip_casts(f, e0)
+            if e is None or e['k'] != 'bin' or e['op'] != '-' or '.' in name or '->' in name:
                 continue
             a, b = cu.strip_casts(f, f.kid(e, 0)), cu.strip_casts(f, f.kid(e, 1))
-            if a is None or b is None or a['k'] != 'ref' or b['k'] != 'member' or b['fld'] != 'base':
+            if a is None or b is None or _desig(f, a) is None or b['k'] != 'member' or b['fld'] != 'base':
                 continue
             bb = cu.strip_casts(f, f.kid(b, 0))
             if bb is None or bb['k'] != 'ref' or bb['name'] not in blocks:
                 continue
-            self.D, self.X, self.B, self.D_decl = d['name'], a['name'], bb['name'], d
+            self.D, self.X, self.B, self.D_decl = name, _desig(f, a), bb['name'], node
             self.ok = True
             break
         if not self.ok:
             return
-        self.L = self.N = self.L_decl = None
+        self.L = self.N = self.L_decl = self.L_expr = None
         win = '(%s->size - %s)' % (self.B, self.D)
-        for d in _decls(f):
-            if not d.get('c'):
-                continue
-            e = cu.strip_casts(f, f.kid(d, 0))
-            if e is not None and e['k'] == 'cond' and win in canon(f, e):
-                self.L, self.L_decl = d['name'], d
+        for name, node, e0 in defs:
+            e = cu.strip_casts(f, e0)
+            if e is not None and e['k'] == 'cond' and win in canon(f, e) and '.' not in name and '->' not in name:
+                self.L, self.L_decl, self.L_expr = name, node, e
                 for arm in (f.kid(e, 1), f.kid(e, 2)):
-                    arm = cu.strip_casts(f, arm)
-                    if arm is not None and arm['k'] == 'ref':
-                        self.N = arm['name']
-        self.P = self.P_decl = None
-        for d in _decls(f):
-            if d.get('c'):
-                e = cu.strip_casts(f, f.kid(d, 0))
-                if e is not None and e['k'] == 'call' and e.get('callee') == 'yr_fetch_block_data':
-                    self.P, self.P_decl = d['name'], d
+                    if _desig(f, arm) is not None:
+                        self.N = _desig(f, arm)
+        self.P = self.P_decl = self.P_type = None
+        for name, node, e0 in defs:
+            e = cu.strip_casts(f, e0)
+            if e is not None and e['k'] == 'call' and e.get('callee') == 'yr_fetch_block_data' and \
+                    '.' not in name and '->' not in name:
+                self.P, self.P_decl = name, node
+                dl = [d for d in _decls(f) if d['name'] == name]
+                self.P_type = dl[0].get('t') if dl else None
         # the "seen a block of the range" flag: assigned a non-zero constant
         # next to the window
         self.FLAG = None
@@ -154,6 +232,66 @@ class Walker(object):
                     dl = [d for d in _decls(f) if d['name'] == l['name']]
                     if dl and dl[0].get('t') in ('_Bool', 'int', 'bool'):
                         self.FLAG = l['name']
+
+    def start_of(self, cursor):
+        """what a cursor starts from: its first definition in source order"""
+        for name, node, e in self.defs:
+            if name == cursor:
+                return canon(self.f, e)
+        return None
+
+    def aliases(self, cursor):
+        """names under which the argument guard may test a cursor's starting value: the
+        cursor itself and, when it is initialised from a variable that is never
+        written, that variable"""
+        out = [cursor]
+        for name, node, e in self.defs:
+            if name == cursor:
+                e = cu.strip_casts(self.f, e)
+                if e is not None and e['k'] == 'ref' and not _writes(self.f, e['name']):
+                    out.append(e['name'])
+                break
+        return out
+
+    def loop_cond_ids(self):
+        """node ids of the condition of the outermost loop around the window"""
+        f = self.f
+        loops = [a for a in f.ancestors(self.D_decl) if a['k'] in ('for', 'while', 'do')]
+        if not loops:
+            return set()
+        lp = loops[-1]
+        cond = None
+        if lp['k'] == 'for':
+            parts = lp.get('parts', [])
+            cond = f.node(parts[1]) if len(parts) > 1 and parts[1] >= 0 else None
+        elif lp['k'] == 'while':
+            cond = f.kid(lp, 0)
+        else:
+            ks = f.kids(lp)
+            cond = ks[-1] if ks else None
+        return set(x['i'] for x in f.walk(cond)) if cond is not None else set()
+
+    def sem(self):
+        """comparison key -> [(fact name, value of the fact when the comparison holds)]"""
+        X, B, N, P = self.X, self.B, self.N, self.P
+        base = '%s->base' % B
+        ends = ['(%s->base + %s->size)' % (B, B), '(%s->size + %s->base)' % (B, B)]
+        t = {}
+
+        def add(key, name, sign):
+            t.setdefault(key, []).append((name, sign))
+        for x in self.aliases(X):
+            add(('lt', x, '0'), 'negative-offset', True)
+            add(('lt', x, base), 'offset-before-first-block', True)
+        for n in self.aliases(N):
+            add(('lt', n, '0'), 'negative-length', True)
+        add(('lt', X, base), 'at-or-after-block-start', False)
+        for e in ends:
+            add(('lt', X, e), 'before-block-end', True)
+        add(('eq', '0', B) if '0' < B else ('eq', B, '0'), 'no-block', True)
+        if P is not None:
+            add(('eq',) + tuple(sorted([P, '0'])), 'data-null', True)
+        return t
 
 
 def walkers(ctx):
@@ -167,41 +305,65 @@ def walkers(ctx):
     return out
 
 
-def _explore_facts(f, interest, kill_on, at_nodes):
-    """must-hold comparison outcomes at given nodes. interest: set of canon
-    strings of comparisons; kill_on: {var: set(canon strings to drop when var
-    is written)}. Returns {node id: intersection over paths of facts}."""
+GUARD_FACTS = ('negative-offset', 'negative-length', 'offset-before-first-block')
+
+
+def _kill_names(w):
+    """fact names dropped when a designator is written.  The argument-guard facts are
+    never dropped (ASSUMPTIONS): they concern the arguments as passed."""
+    inblk = set(['at-or-after-block-start', 'before-block-end'])
+    k = {w.X: set(inblk), w.B: inblk | set(['no-block'])}
+    if w.P is not None:
+        k[w.P] = set(['data-null'])
+    return k
+
+
+def _explore_facts(w, at_nodes):
+    """must-hold named facts (Walker.sem) at given nodes: {node id: intersection over
+    paths of {(fact name, bool)}}"""
+    f = w.f
+    sem = w.sem()
+    kill_on = _kill_names(w)
     seen = {}
+
+    def record(i, facts):
+        cur = seen.get(i)
+        seen[i] = set(facts) if cur is None else (cur & set(facts))
 
     def step(n, facts):
         if n['i'] in at_nodes:
-            cur = seen.get(n['i'])
-            seen[n['i']] = set(facts) if cur is None else (cur & set(facts))
-        name = None
-        if n['k'] == 'bin' and n['op'].endswith('=') and n['op'] not in ('==', '!=', '<=', '>='):
-            l = cu.strip_casts(f, f.kid(n, 0))
-            name = l['name'] if l is not None and l['k'] == 'ref' else None
-        elif n['k'] == 'un' and n['op'] in ('++', '--', 'post++', 'post--'):
-            l = cu.strip_casts(f, f.kid(n, 0))
-            name = l['name'] if l is not None and l['k'] == 'ref' else None
-        if name in kill_on:
-            return frozenset(x for x in facts if x[1] not in kill_on[name])
+            record(n['i'], facts)
+        name = _written(f, n)
+        if name is not None:
+            dead = set()
+            for k, names in kill_on.items():
+                if k == name or k.startswith(name + '.') or k.startswith(name + '->'):
+                    dead |= names
+            if dead:
+                return frozenset(x for x in facts if x[0] not in dead)
         if n['k'] == 'ret':
             return None
         return facts
 
     def edge(b, term, cond, idx, succ, facts):
+        if cond is not None and cond['i'] in at_nodes:
+            record(cond['i'], facts)
         pol = paths.branch_polarity(f, term, idx)
         if pol is None or cond is None:
             return facts
         c, p2 = paths.normalise_cond(f, cond, pol)
         if c is None:
             return facts
-        s = canon(f, c)
-        if s not in interest:
-            s = rcanon(f, c)        # through locals that merely name a sub-expression
-        if s in interest:
-            return frozenset(facts) | {('T' if p2 else 'F', s)}
+        add = set()
+        have_names = set(x[0] for x in facts)
+        for key, val in _cmp_keys(f, c, p2):
+            for name, sign in sem.get(key, ()):
+                if name in GUARD_FACTS and name in have_names:
+                    continue        # decided once, about the arguments as passed
+                add.add((name, val == sign))
+        if add:
+            names = set(x[0] for x in add)
+            return frozenset(x for x in facts if x[0] not in names) | add
         return facts
     paths.explore(f, set(), step, edge, max_states=50000)
     return seen
@@ -210,6 +372,21 @@ def _explore_facts(f, interest, kill_on, at_nodes):
 def r14_2(ctx):
     ws = walkers(ctx)
     ctx.count('range_walkers', len(ws))
+    # every function of the modules that walks the blocks and fetches their data over a
+    # caller-given range must be one of the recognised walkers: a walker whose shape the role
+    # inference no longer understands is an analysis failure, not a silent pass
+    known = set(w.f.name for w in ws)
+    for f in ctx.prog.fns():
+        if f.tu.name not in MODULE_TUS or ctx.fixture:
+            continue
+        fetches = [c for c in f.calls() if c.get('callee') == 'yr_fetch_block_data']
+        in_loop = [c for c in fetches if any(a['k'] in ('for', 'while', 'do') for a in f.ancestors(c))]
+        ranged = any(x['k'] == 'member' and x['fld'] == 'base' for x in f.all_nodes()) and \
+            any(x['k'] == 'bin' and x['op'] == '-' and
+                any(y['k'] == 'member' and y['fld'] == 'base' for y in f.walk(x)) for x in f.all_nodes())
+        if in_loop and ranged:
+            ctx.require(f.name in known, 'R14.2: %s walks the memory blocks over a range but its roles '
+                        '(cursor, window, data pointer) are not recognised' % f.name)
     for w in ws:
         f = w.f
         key = f.name
@@ -225,16 +402,9 @@ def r14_2(ctx):
         if not roles_ok:
             continue
         N, L, P = w.N, w.L, w.P
-        g_null = '(%s == 0)' % B
-        guards = {'negative-offset': '(%s < 0)' % X, 'negative-length': '(%s < 0)' % N,
-                  'offset-before-first-block': '(%s < %s->base)' % (X, B)}
-        inblk = {'at-or-after-block-start': '(%s >= %s->base)' % (X, B),
-                 'before-block-end': '(%s < (%s->base + %s->size))' % (X, B, B)}
-        p_nonnull = ('(%s != 0)' % P, '(%s == 0)' % P)
-        g_nonnull = '(%s != 0)' % B
-        interest = set(guards.values()) | set(inblk.values()) | set([g_null, g_nonnull]) | set(p_nonnull)
-        kill = {X: set(inblk.values()), B: set(inblk.values()) | set([g_null, g_nonnull]),
-                P: set(p_nonnull)}
+        guards = list(GUARD_FACTS)
+        inblk = {'at-or-after-block-start': '%s >= %s->base' % (X, B),
+                 'before-block-end': '%s < %s->base + %s->size' % (X, B, B)}
         # nodes of interest: the window declaration, and every dereference of P
         p_uses = [n for n in f.all_nodes() if n['k'] == 'ref' and n['name'] == P]
         derefs = []
@@ -247,6 +417,8 @@ def r14_2(ctx):
                 continue
             if par['k'] == 'bin' and par['op'] in ('==', '!='):
                 continue
+            if par['k'] == 'bin' and par['op'] == '=' and cu.strip_casts(f, f.kid(par, 0)) is u:
+                continue            # the definition of P itself
             if par['k'] == 'un' and par['op'] == '!':
                 continue
             if par['k'] in ('if', 'while', 'for', 'cond'):
@@ -291,9 +463,10 @@ def r14_2(ctx):
                if not shape_bad else
                'block data pointer %s is %s: bytes outside the clipped window can be read' % (
                    P, shape_bad[0][1]))
-        at = set([w.D_decl['i']]) | set(d['i'] for d in derefs)
+        lc = w.loop_cond_ids()
+        at = set([w.D_decl['i']]) | set(d['i'] for d in derefs) | lc
         try:
-            seen = _explore_facts(f, interest, kill, at)
+            seen = _explore_facts(w, at)
         except paths.Budget:
             ctx.note('R14.2 %s: state budget exceeded (not decided)' % key)
             continue
@@ -301,24 +474,35 @@ def r14_2(ctx):
         if have is None:
             ctx.ob('R14.2', key + ':window-reachable', False, where, 'the window is unreachable')
             continue
-        for nm, s in sorted(guards.items()):
-            ok = ('F', s) in have
+        # the argument guard is decided where the walk starts (the condition of the loop
+        # over the blocks), so that the per-block test of the same comparison does not
+        # stand in for it
+        entry = None
+        for i in lc:
+            if i in seen:
+                entry = seen[i] if entry is None else (entry & seen[i])
+        if entry is None:
+            entry = have
+        said = {'negative-offset': '%s < 0' % X, 'negative-length': '%s < 0' % N,
+                'offset-before-first-block': '%s < %s->base' % (X, B)}
+        for nm in guards:
+            ok = (nm, False) in entry
             ctx.ob('R14.2', '%s:guard:%s' % (key, nm), ok, where,
-                   '%s is rejected before the walk on every path' % s if ok else
-                   'the walk is reached without %s having been tested and rejected: the range is '
-                   'not validated (undefined expected)' % s)
-        ok = ('F', g_null) in have or ('T', g_nonnull) in have
+                   '(%s) is rejected before the walk on every path' % said[nm] if ok else
+                   'the walk is reached without (%s) having been tested and rejected: the range is '
+                   'not validated (undefined expected)' % said[nm])
+        ok = ('no-block', False) in have
         ctx.ob('R14.2', key + ':guard:no-block', ok, where,
                'a NULL first block is rejected before block->base is read' if ok else
-               '%s->base is read without %s having been rejected' % (B, g_null))
-        for nm, s in sorted(inblk.items()):
-            ok = ('T', s) in have
+               '%s->base is read without (%s == 0) having been rejected' % (B, B))
+        for nm, s_ in sorted(inblk.items()):
+            ok = (nm, True) in have
             ctx.ob('R14.2', '%s:window:%s' % (key, nm), ok, where,
-                   'the window is entered only when %s' % s if ok else
-                   'the window is computed without %s holding for the current block: %s wraps or '
-                   'exceeds the block' % (s, D))
+                   'the window is entered only when %s' % s_ if ok else
+                   'the window is computed without (%s) holding for the current block: %s wraps or '
+                   'exceeds the block' % (s_, D))
         # clip
-        e = cu.strip_casts(f, f.kid(w.L_decl, 0))
+        e = w.L_expr
         t = cu.strip_casts(f, f.kid(e, 0))
         a1, a2 = canon(f, f.kid(e, 1)), canon(f, f.kid(e, 2))
         win = '(%s->size - %s)' % (B, D)
@@ -337,24 +521,23 @@ def r14_2(ctx):
         adv = {}
         for n in f.all_nodes():
             if n['k'] == 'bin' and n['op'] in ('+=', '-='):
-                l = cu.strip_casts(f, f.kid(n, 0))
-                if l is not None and l['k'] == 'ref' and canon(f, f.kid(n, 1)) == L:
-                    adv[l['name']] = n['op']
+                l = _desig(f, f.kid(n, 0))
+                if l is not None and canon(f, f.kid(n, 1)) == L:
+                    adv[l] = n['op']
         ok = adv.get(X) == '+=' and adv.get(N) == '-='
         ctx.ob('R14.2', key + ':cursors-advance-by-window', ok, f.loc(w.L_decl),
                '%s += %s and %s -= %s' % (X, L, N, L) if ok else
                'the cursors do not both advance by the window length (%s): a range spanning '
                'several blocks is hashed from the wrong position or for the wrong length' % adv)
         # unreadable block: every dereference happens with P != NULL established
-        bad = [d for d in derefs if ('T', p_nonnull[0]) not in (seen.get(d['i']) or set())
-               and ('F', p_nonnull[1]) not in (seen.get(d['i']) or set())]
+        bad = [d for d in derefs if ('data-null', False) not in (seen.get(d['i']) or set())]
         ctx.ob('R14.2', key + ':data-null-checked', not bad, f.loc(bad[0]) if bad else where,
                'block data is read only after %s was found non-NULL' % P if not bad else
                '%s is dereferenced without a NULL test on this path' % P)
-        pt = w.P_decl.get('t', '').replace('const ', '').replace(' ', '')
+        pt = (w.P_type or '').replace('const ', '').replace(' ', '')
         ctx.ob('R14.2', key + ':data-read-as-unsigned', pt in ('uint8_t*', 'unsignedchar*'), f.loc(w.P_decl),
-               'block bytes are read through %s' % w.P_decl.get('t') if pt in ('uint8_t*', 'unsignedchar*')
-               else 'block bytes are read through %s: bytes >= 0x80 are sign-extended' % w.P_decl.get('t'))
+               'block bytes are read through %s' % w.P_type if pt in ('uint8_t*', 'unsignedchar*')
+               else 'block bytes are read through %s: bytes >= 0x80 are sign-extended' % w.P_type)
         _gap_and_empty(ctx, w)
 
 
@@ -368,7 +551,7 @@ def _gap_and_empty(ctx, w):
         ctx.ob('R14.2', f.name + ':gap-is-undefined', False, f.loc(w.D_decl),
                'no "seen a block of the range" flag: gaps between blocks are not detected')
         return
-    inblk = set(['(%s >= %s->base)' % (X, B), '(%s < (%s->base + %s->size))' % (X, B, B)])
+    sem = w.sem()
     bad = []
     bad_null = []
     P = w.P
@@ -410,11 +593,12 @@ def _gap_and_empty(ctx, w):
         if c is None:
             return facts
         s = canon(f, c)
-        if s in inblk and not p2:
-            return frozenset(facts) | {('out',)}
-        if (s == '(%s == 0)' % P and p2) or (s == '(%s != 0)' % P and not p2) or \
-                (s == P and not p2):
-            return frozenset(facts) | {('pnull',)}
+        for k_, val in _cmp_keys(f, c, p2):
+            for name, sign in sem.get(k_, ()):
+                if name in ('at-or-after-block-start', 'before-block-end') and (val == sign) is False:
+                    return frozenset(facts) | {('out',)}
+                if name == 'data-null' and (val == sign) is True:
+                    return frozenset(facts) | {('pnull',)}
         if s == FLAG:
             if ('flag', 0 if p2 else 1) in facts:
                 return None
@@ -526,10 +710,7 @@ def r14_1(ctx):
                    'not under the arguments it will be looked up with' % written[0][0])
             w = Walker(f)
             if w.ok and w.N is not None:
-                inits = {}
-                for d in _decls(f):
-                    if d['name'] in (w.X, w.N) and d.get('c'):
-                        inits[d['name']] = canon(f, f.kid(d, 0))
+                inits = {w.X: w.start_of(w.X), w.N: w.start_of(w.N)}
                 ok2 = inits.get(w.X) == kg[0] and inits.get(w.N) == kg[1]
                 ctx.ob('R14.1', key + ':cursors-start-at-key', ok2, f.loc(w.D_decl),
                        'the walk starts at (%s, %s) = the key' % (w.X, w.N) if ok2 else
@@ -671,10 +852,39 @@ def r14_3(ctx):
                 c = cu.const_of(cu.strip_casts(f, idx))
                 bounded = False
                 for a in f.ancestors(par):
-                    if a['k'] == 'for' and canon(f, f.kid(a, 1)) == '(%s < %s)' % (canon(f, idx), slen):
+                    if a['k'] == 'for' and canon(f, f.kid(a, 1)) in (
+                            '(%s < %s)' % (canon(f, idx), slen), '(%s > %s)' % (slen, canon(f, idx))):
+                        bounded = True
+                    if a['k'] == 'while' and canon(f, f.kid(a, 0)) in (
+                            '(%s < %s)' % (canon(f, idx), slen), '(%s > %s)' % (slen, canon(f, idx))):
                         bounded = True
                     if a['k'] == 'if' and c is not None and canon(f, f.kid(a, 0)) == '(%s > %d)' % (slen, c):
                         bounded = True
+                # counting down: index v - 1 inside a loop that runs while v > 0, v starting at
+                # the length and only ever decremented
+                ix = cu.strip_casts(f, idx)
+                if not bounded and ix is not None and ix['k'] == 'bin' and ix['op'] == '-' and \
+                        cu.const_of(cu.strip_casts(f, f.kid(ix, 1))) == 1:
+                    v = cu.strip_casts(f, f.kid(ix, 0))
+                    if v is not None and v['k'] == 'ref':
+                        loops = [a for a in f.ancestors(par) if a['k'] in ('while', 'for')]
+                        guard = any(canon(f, f.kid(a, 0) if a['k'] == 'while' else f.kid(a, 1)) in
+                                    ('(%s > 0)' % v['name'], '(%s != 0)' % v['name'], v['name'])
+                                    for a in loops)
+                        inits, other = [], []
+                        for x in f.all_nodes():
+                            if x['k'] == 'decl' and x.get('name') == v['name'] and x.get('c'):
+                                inits.append(canon(f, f.kid(x, 0)))
+                            elif x['k'] == 'bin' and x['op'].endswith('=') and x['op'] not in ('==', '!=', '<=', '>=') \
+                                    and canon(f, f.kid(x, 0)) == v['name']:
+                                if x['op'] == '=':
+                                    inits.append(canon(f, f.kid(x, 1)))
+                                elif not (x['op'] == '-=' and cu.const_of(cu.strip_casts(f, f.kid(x, 1))) == 1):
+                                    other.append(x)
+                            elif x['k'] == 'un' and x['op'] in ('++', 'post++') and canon(f, f.kid(x, 0)) == v['name']:
+                                other.append(x)
+                        if guard and inits and all(i_ == slen for i_ in inits) and not other:
+                            bounded = True
                 ctx.ob('R14.3', key + ':index-below-length', bounded, f.loc(par),
                        'the index is bounded by %s' % slen if bounded else
                        '%s->c_string[%s] is read outside a loop/test bounded by %s' % (S, canon(f, idx), slen))
